@@ -1,4 +1,5 @@
 use std::collections::{HashMap, hash_map};
+use std::mem::ManuallyDrop;
 use std::ops::Deref;
 use std::sync::{Arc, RwLock};
 use std::thread::{self, ThreadId};
@@ -170,7 +171,8 @@ where
         let inner = self.family.current_thread_instance();
 
         RefSync {
-            inner,
+            inner: ManuallyDrop::new(inner),
+            origin: thread::current().id(),
             family: self.family.clone(),
         }
     }
@@ -200,7 +202,13 @@ where
 {
     // We really are just a wrapper around an Arc<T>. The only other duty we have
     // is to clean up the thread-local instance when the last `RefSync` is dropped.
-    inner: Arc<T>,
+    // `ManuallyDrop` because our reference must be released under the family state lock.
+    inner: ManuallyDrop<Arc<T>>,
+
+    // The thread whose instance `inner` is. A `RefSync` may be dropped on any thread but the
+    // family state entry it is responsible for cleaning up is always the one of this thread.
+    origin: ThreadId,
+
     family: FamilyStateReference<T>,
 }
 
@@ -223,7 +231,8 @@ where
     #[inline]
     fn clone(&self) -> Self {
         Self {
-            inner: Arc::clone(&self.inner),
+            inner: ManuallyDrop::new(Arc::clone(&self.inner)),
+            origin: self.origin,
             family: self.family.clone(),
         }
     }
@@ -234,17 +243,11 @@ where
     T: linked::Object + Send + Sync,
 {
     fn drop(&mut self) {
-        // If we were the last RefSync on this thread then we need to drop the thread-local
-        // state for this thread. Note that there are 2 references - ourselves and the family state.
-        if Arc::strong_count(&self.inner) != 2 {
-            // No - there is another RefSync, so we do not need to clean up.
-            return;
-        }
+        // SAFETY: We are in `drop()`, so `self.inner` is never accessed again (and, being
+        // `ManuallyDrop`, not dropped a second time either).
+        let inner = unsafe { ManuallyDrop::take(&mut self.inner) };
 
-        self.family.clear_current_thread_instance();
-
-        // `self.inner` is now the last reference to the current thread's instance of T
-        // and this instance will be dropped once this function returns and drops the last `Arc<T>`.
+        self.family.release_instance(self.origin, inner);
     }
 }
 
@@ -321,12 +324,31 @@ where
         }
     }
 
-    fn clear_current_thread_instance(&self) {
-        // We need to clear the thread-specific state for this thread.
-        let thread_id = thread::current().id();
-
+    /// Releases one `RefSync`'s reference to the instance of thread `origin`. If it was the last
+    /// such reference, the instance is removed from the family state and dropped.
+    ///
+    /// May be called from any thread - a `RefSync` can be dropped on a thread other than the one
+    /// it was acquired on.
+    fn release_instance(&self, origin: ThreadId, instance: Arc<T>) {
         let mut map = self.thread_specific.write().expect(ERR_POISONED_LOCK);
-        map.remove(&thread_id);
+
+        // Every `RefSync` releases its reference while holding the write lock and `acquire()`
+        // only hands out new references under the read lock, so this test cannot race: a count
+        // of 2 means exactly "`instance` and the map entry" and nobody can observe the entry
+        // before we remove it. Any higher count means some other `RefSync` still exists (cloning
+        // those is not synchronized with us but can only increase an already higher count).
+        if Arc::strong_count(&instance) == 2 {
+            let state = map.remove(&origin);
+
+            // The instance of `T` is dropped here, which may execute arbitrary code, including
+            // potentially code that tries to grab the same lock - so release the lock first.
+            drop(map);
+            drop(state);
+            drop(instance);
+        } else {
+            // Not the last reference - this does not drop the `T`.
+            drop(instance);
+        }
     }
 }
 
